@@ -62,4 +62,76 @@ theorem avo_alloc_valid_installed (is : List AInstr) (A : List (Nat × Nat))
     checkValid P A = true ∧ checkAllocShape A = true :=
   avo_alloc_valid _ is A candidates_physical h P hP
 
+/-- Non-vacuity of `avo_alloc_valid_installed`: `v := …; w := …` with `v` live across the definition of `w`;
+the model allocates (v ↦ RAX, w ↦ RCX) and the allocation is valid for the corresponding checked program. -/
+example :
+    let is : List AInstr := [⟨[⟨257, 15⟩], [⟨257, 15⟩], [(257, 15)], [true]⟩,
+                             ⟨[⟨65793, 15⟩], [⟨65793, 15⟩], [(257, 15), (65793, 15)], [true]⟩]
+    let P : CProg := #[⟨[], [⟨257, 15⟩], [some 1], [], [(257, 15)]⟩,
+                      ⟨[], [⟨65793, 15⟩], [none], [(257, 15)], [(257, 15), (65793, 15)]⟩]
+    (allocate Avo.Gen.regs is).toOption = some [(257, 256), (65793, 65792)] ∧
+      checkValid P [(257, 256), (65793, 65792)] = true ∧ checkValid P [(257, 256), (65793, 256)] = false := by
+  decide +kernel
+
+/-! ### The fuel of `allocLoop` is sufficient
+
+`allocLoop` carries a fuel and answers `failed` when it runs out — the same answer as a genuine allocation failure.
+Every round removes the chosen virtual from `possible`, so `possible.length + 1` rounds always suffice: above that
+bound the result does not depend on the fuel, i.e. the fuel branch is never the reason for `failed` in `allocKind`
+(which starts the loop with exactly `possible.length + 1`). -/
+
+theorem discardConf_length (poss : List (Nat × List Nat)) (v p : Nat) : (discardConf poss v p).length = poss.length := by
+  simp [discardConf]
+
+theorem updateEdges_length (al : List (Nat × Nat)) :
+    ∀ (es : List (Nat × Nat)) (poss : List (Nat × List Nat)) (rem : List (Nat × Nat)) poss' rem',
+      updateEdges al es poss rem = .ok (poss', rem') → poss'.length = poss.length
+  | [], poss, rem, poss', rem', h => by
+    simp only [updateEdges, Except.ok.injEq, Prod.mk.injEq] at h
+    rw [← h.1]
+  | (x0, y0) :: es, poss, rem, poss', rem', h => by
+    unfold updateEdges at h
+    simp only at h
+    split at h
+    · exact updateEdges_length al es poss _ _ _ h
+    · split at h
+      · split at h
+        · cases h
+        · exact updateEdges_length al es poss _ _ _ h
+      · split at h
+        · rw [updateEdges_length al es _ _ _ _ h, discardConf_length]
+        · rw [updateEdges_length al es _ _ _ _ h, discardConf_length]
+
+/-- **Fuel sufficiency.** With more fuel than unallocated virtuals the result of the loop is independent of the fuel. -/
+theorem allocLoop_fuel_irrelevant : ∀ (f1 f2 : Nat) (st : AState),
+    st.possible.length < f1 → st.possible.length < f2 → allocLoop f1 st = allocLoop f2 st
+  | 0, _, _, h, _ => by omega
+  | _ + 1, 0, _, _, h => by omega
+  | f1 + 1, f2 + 1, st, h1, h2 => by
+    simp only [allocLoop]
+    cases hu : updateEdges st.allocation st.edges st.possible [] with
+    | error e => rfl
+    | ok pr =>
+      rcases pr with ⟨poss, rem⟩
+      have hl := updateEdges_length _ _ _ _ _ _ hu
+      simp only
+      cases hm : mostRestricted poss with
+      | none => rfl
+      | some e =>
+        rcases e with ⟨v, ps⟩
+        cases ps with
+        | nil => rfl
+        | cons p ps =>
+          simp only
+          have hlt : (poss.filter (fun e => e.1 != v)).length < poss.length := by
+            apply List.length_filter_lt_length_iff_exists.mpr
+            exact ⟨(v, p :: ps), mostRestricted_mem _ _ hm, by simp⟩
+          apply allocLoop_fuel_irrelevant <;> simp only <;> omega
+
+/-- In particular extra fuel never changes what `allocKind`'s loop answers: a `failed` of the model is a genuine
+"some virtual has no candidate left", never an exhausted fuel. -/
+theorem allocLoop_fuel_sufficient (st : AState) (extra : Nat) :
+    allocLoop (st.possible.length + 1 + extra) st = allocLoop (st.possible.length + 1) st :=
+  allocLoop_fuel_irrelevant _ _ st (by omega) (by omega)
+
 end Avo.Alloc
